@@ -438,6 +438,25 @@ func (cl *verifC01Cluster) setCH(r int, mode string) {
 	cl.ch.mu.Unlock()
 }
 
+// storage stalls: every insert request hangs until released (inserters stay busy, the ticker finds
+// the insert conveyor full and answers "keep" to the waiting long polls)
+func (cl *verifC01Cluster) stallStorage(on bool) {
+	cl.tr.Emit("Fault", "kind", map[bool]string{true: "storage-stall-on", false: "storage-stall-off"}[on], "inst", "")
+	cl.ch.mu.Lock()
+	for k := range cl.ch.mode {
+		if on && cl.ch.mode[k] == "ok" {
+			cl.ch.mode[k] = "stall"
+		} else if !on && cl.ch.mode[k] == "stall" {
+			cl.ch.mode[k] = "ok"
+		}
+	}
+	if !on {
+		close(cl.ch.release)
+		cl.ch.release = make(chan struct{})
+	}
+	cl.ch.mu.Unlock()
+}
+
 func (cl *verifC01Cluster) missing() []int32 {
 	cl.mu.Lock()
 	defer cl.mu.Unlock()
@@ -465,6 +484,9 @@ func verifC01Scenario(name string, rnd interface{ Intn(int) int }, length int) [
 	add := func(at float64, what string, r int) { st = append(st, verifC01Step{at, what, r}) }
 	switch name {
 	case "calm":
+	case "conveyor-full": // storage hangs with a single inserter per aggregator: the insert conveyor fills up
+		add(4, "stall-on", 0)
+		add(16, "stall-off", 0)
 	case "agent-restart": // long outage of every replica, graceful agent restart in the middle of it
 		for q := 0; q < 3; q++ {
 			add(3, "refuse-on", q)
@@ -593,6 +615,10 @@ func TestVerifC01(t *testing.T) {
 		case "refuse-off":
 			tr.Emit("Fault", "kind", "replica-unreachable-off", "inst", cl.instName(st.r))
 			cl.proxies[st.r].setMode("pass")
+		case "stall-on":
+			cl.stallStorage(true)
+		case "stall-off":
+			cl.stallStorage(false)
 		case "agent-restart":
 			cl.restartAgent()
 		case "restart-graceful":
@@ -613,6 +639,7 @@ func TestVerifC01(t *testing.T) {
 		cl.proxies[r].setMode("pass")
 		cl.setCH(r, "ok")
 	}
+	cl.stallStorage(false)
 	tr.Emit("Fault", "kind", "all-healed", "inst", "")
 	deadline := time.Now().Add(time.Duration(verifkit.EnvInt("VERIF_C01_DRAIN", 120)) * time.Second)
 	time.Sleep(3 * time.Second)
